@@ -1,8 +1,8 @@
 CONSTANTS
   AsIs_D10 = FALSE
   Mut_NilFailedEvent = FALSE
-  Mut_NegotiateLeaksLock = FALSE
+  Mut_NegotiateLeaksLock = TRUE
 SPECIFICATION Spec
-INVARIANTS TypeOK NoPanic Outcome Reported AllPrintable LockReleased Emit
+INVARIANTS TypeOK NoPanic Outcome Reported LockReleased
 PROPERTY Terminates
 CHECK_DEADLOCK FALSE
